@@ -2,6 +2,7 @@ package main
 
 import (
 	"go/types"
+	"strings"
 
 	"golang.org/x/tools/go/ssa"
 )
@@ -37,14 +38,60 @@ func (P *Program) allocatesType(fn *ssa.Function, ti *TypeInv) bool {
 	return false
 }
 
-// exprFields lists the field names selected on `self` in a type invariant.
+// exprFields lists the dotted field paths selected on `self` in a type invariant
+// (self.tip.frames -> "tip.frames"; indexing is transparent).
 func exprFields(e *Expr, out map[string]bool) {
-	if e.Kind == "sel" && e.Args[0].Kind == "ident" && e.Args[0].Name == "self" {
-		out[e.Name] = true
+	if p, ok := selfPath(e); ok && p != "" {
+		out[p] = true
+		if e.Kind == "index" {
+			exprFields(e.Args[1], out)
+		}
+		return // maximal path only
 	}
 	for _, a := range e.Args {
 		exprFields(a, out)
 	}
+}
+
+func selfPath(e *Expr) (string, bool) {
+	switch e.Kind {
+	case "ident":
+		if e.Name == "self" {
+			return "", true
+		}
+	case "sel":
+		if p, ok := selfPath(e.Args[0]); ok {
+			if p == "" {
+				return e.Name, true
+			}
+			return p + "." + e.Name, true
+		}
+	case "index":
+		return selfPath(e.Args[0])
+	}
+	return "", false
+}
+
+// storePath: dotted field path of a store address relative to the struct pointer it starts from.
+func storePath(v ssa.Value) (base ssa.Value, path string) {
+	switch a := v.(type) {
+	case *ssa.FieldAddr:
+		b, p := storePath(a.X)
+		name := derefType(a.X.Type()).Underlying().(*types.Struct).Field(a.Field).Name()
+		if p == "" {
+			return b, name
+		}
+		return b, p + "." + name
+	case *ssa.IndexAddr:
+		if _, isArr := derefType(a.X.Type()).Underlying().(*types.Array); isArr {
+			return storePath(a.X)
+		}
+	}
+	return v, ""
+}
+
+func pathsConflict(a, b string) bool {
+	return a == b || strings.HasPrefix(a, b+".") || strings.HasPrefix(b, a+".")
 }
 
 // typeInvImmutable: the fields a type invariant mentions are stored only into objects that
@@ -65,13 +112,6 @@ func (P *Program) typeInvImmutable(prop string) []*Obligation {
 		}
 		fields := map[string]bool{}
 		exprFields(ti.Clause.Expr, fields)
-		keys := map[string]string{}
-		st := tn.Type().Underlying().(*types.Struct)
-		for i := 0; i < st.NumFields(); i++ {
-			if fields[st.Field(i).Name()] {
-				keys[fieldKey(tn.Type(), i)] = st.Field(i).Name()
-			}
-		}
 		ok := true
 		why := ""
 		for _, fn := range P.ModFuncs {
@@ -86,9 +126,15 @@ func (P *Program) typeInvImmutable(prop string) []*Obligation {
 					if loc || fr || k == "" {
 						continue
 					}
-					if f, hit := keys[k]; hit {
-						ok = false
-						why = "field " + f + " written outside construction in " + relName(fn) + " at " + P.pos(s.Pos())
+					base, path := storePath(s.Addr)
+					if path == "" || !types.Identical(derefType(base.Type()), tn.Type()) {
+						continue
+					}
+					for f := range fields {
+						if pathsConflict(f, path) {
+							ok = false
+							why = "field " + path + " written outside construction in " + relName(fn) + " at " + P.pos(s.Pos())
+						}
 					}
 				}
 			}
